@@ -463,7 +463,7 @@ class bin_array(object):
                 ret = CoverpointBinCollectionModel(name)
                 for r in ranges.range_l:
                     if r[0] != r[1]:
-                        b = ret.add_bin(CoverpointBinArrayModel(name, r[0], r[1]))
+                        b = ret.add_bin(CoverpointBinArrayModel(name, r[0], r[1], idx))
                         b.srcinfo_decl = self.srcinfo_decl
                         idx += ((r[1] - r[0]) + 1)
                     elif r[0] == r[1]:
@@ -612,7 +612,7 @@ class wildcard_bin_array(object):
                 for r in range_l:
                     if len(r) == 2:
                         if r[0] != r[1]:
-                            b = ret.add_bin(CoverpointBinArrayModel(name, r[0], r[1]))
+                            b = ret.add_bin(CoverpointBinArrayModel(name, r[0], r[1], idx))
                             b.srcinfo_decl = self.srcinfo_decl
                             idx += ((r[1] - r[0]) + 1)
                         else:
